@@ -872,6 +872,85 @@ func c14ForeignFiles(dotu bool) Scenario {
 	}}
 }
 
+// c14OpenBits: every combination of the open-mode bits (OTRUNC, OCEXEC, ORCLOSE) with
+// every access mode, on an existing file longer than what is then written: while the
+// fid is open the host file holds what the mode and the write say (truncated or not),
+// and a read through a fid opened for reading returns it.
+func c14OpenBits(dotu bool) Scenario {
+	name := fmt.Sprintf("open-mode bits (OTRUNC, OCEXEC, ORCLOSE) x access modes on an existing file dotu=%v", dotu)
+	return Scenario{Name: name, Run: func(rc *RunCtx) *Result {
+		res := &Result{Exhaustive: true}
+		seen := map[string]bool{}
+		old := pattern(50, 4)
+		for _, acc := range []uint8{go9p.OREAD, go9p.OWRITE, go9p.ORDWR} {
+			for bits := 0; bits < 8; bits++ {
+				mode := acc
+				if bits&1 != 0 {
+					if acc == go9p.OREAD {
+						continue // truncating through a read-only open: what the host does is unspecified
+					}
+					mode |= go9p.OTRUNC
+				}
+				if bits&2 != 0 {
+					mode |= 0x20 // OCEXEC
+				}
+				if bits&4 != 0 {
+					mode |= go9p.ORCLOSE
+				}
+				base, root := scratchDir("c14b")
+				p := filepath.Join(root, "file")
+				os.WriteFile(p, old, 0o644)
+				bad := withUfsClient(root, 8216, dotu, func(c *go9p.Clnt, h *SrvH) string {
+					f, err := c.FOpen("file", mode)
+					res.Evals++
+					if err != nil {
+						// (what the host refuses - truncating a file opened read-only - may be refused)
+						if acc == go9p.OREAD && bits&1 != 0 {
+							return ""
+						}
+						return fmt.Sprintf("FOpen with mode %#x: %v", mode, err)
+					}
+					want := append([]byte{}, old...)
+					if bits&1 != 0 && acc != go9p.OREAD {
+						want = nil
+					}
+					if acc != go9p.OREAD {
+						if _, err := f.WriteAt([]byte("new"), 0); err != nil {
+							return fmt.Sprintf("WriteAt after FOpen with mode %#x: %v", mode, err)
+						}
+						if len(want) < 3 {
+							want = []byte("new")
+						} else {
+							copy(want, "new")
+						}
+					}
+					if got, err := os.ReadFile(p); err != nil || !bytes.Equal(got, want) {
+						return fmt.Sprintf("a %d-byte file opened with mode %#x and (unless read-only) overwritten with 3 bytes at 0 holds %d bytes %x on the host, want %d bytes %x", len(old), mode, len(got), got, len(want), want)
+					}
+					if acc != go9p.OWRITE {
+						buf := make([]byte, 80)
+						n, _ := f.ReadAt(buf, 0)
+						if !bytes.Equal(buf[:n], want) {
+							return fmt.Sprintf("reading through the fid opened with mode %#x returns %d bytes, the file holds %d", mode, n, len(want))
+						}
+					}
+					return ""
+				})
+				os.RemoveAll(base)
+				if bad != "" {
+					sig := "C14/open-bits/" + sigWords(bad)
+					if !seen[sig] {
+						seen[sig] = true
+						res.Findings = append(res.Findings, Finding{Sig: sig, Msg: bad})
+					}
+				}
+			}
+		}
+		res.Nontrivial = res.Evals
+		return res
+	}}
+}
+
 // c14NoChange is a Dir whose every field says "leave it as it is".
 func c14NoChange() *go9p.Dir {
 	return &go9p.Dir{Type: ^uint16(0), Dev: ^uint32(0), Qid: go9p.Qid{Type: 0xFF, Version: ^uint32(0), Path: ^uint64(0)}, Mode: ^uint32(0), Atime: ^uint32(0), Mtime: ^uint32(0), Length: ^uint64(0), Uidnum: go9p.NOUID, Gidnum: go9p.NOUID, Muidnum: go9p.NOUID}
@@ -881,6 +960,7 @@ func c14Scenarios(tier string) []Scenario {
 	var out []Scenario
 	out = append(out, c14AfterWstat(false), c14AfterWstat(true))
 	out = append(out, c14ForeignFiles(false), c14ForeignFiles(true))
+	out = append(out, c14OpenBits(false), c14OpenBits(true))
 	msizes := []uint32{32, 40, 152}
 	if tier == "thorough" {
 		msizes = []uint32{32, 33, 40, 152, 4120, 65560}
